@@ -631,6 +631,10 @@ func (b *BaseStore) Load(ctx context.Context, amount int) error {
 		return err
 	}
 
+	if amount < 0 {
+		b.reportMissingEntries()
+	}
+
 	// Update the index
 	if len(heads) > 0 {
 		span.AddEvent("store-index-updating")
@@ -646,6 +650,33 @@ func (b *BaseStore) Load(ctx context.Context, amount int) error {
 	}
 
 	return nil
+}
+
+// reportMissingEntries tells the replicator which predecessors of entries of the log are not
+// in the log after everything has been loaded. An entry gets there without its ancestry when a
+// fetch failed during a replication; the replicator then knows what to ask for again, but only
+// until the store is closed. The heads peers send later are in the log already and nobody
+// would go below them again.
+func (b *BaseStore) reportMissingEntries() {
+	r, ok := b.replicator.(interface{ Missing(hashes []cid.Cid) })
+	if !ok {
+		return
+	}
+
+	oplog := b.OpLog()
+
+	var missing []cid.Cid
+	for _, e := range oplog.GetEntries().Slice() {
+		for _, next := range e.GetNext() {
+			if _, inLog := oplog.Get(next); !inLog {
+				missing = append(missing, next)
+			}
+		}
+	}
+
+	if len(missing) > 0 {
+		r.Missing(missing)
+	}
 }
 
 func (b *BaseStore) Sync(ctx context.Context, heads []ipfslog.Entry) error {
